@@ -138,7 +138,9 @@ Fixpoint value_sx_fuel (fuel : nat) (v : value) : sx :=
       | VVar 0 _ => L [A 0]
       | VVar 1 [VS s] => L [A 1; of_Ns s]
       | VVar 2 [VB b] => L [A 2; of_bool b]
-      | VVar 3 [VZ z] => L [A 3; A z]
+      | VVar 3 [VZ z] =>
+          (* sign and two 32-bit halves: the driver's atoms are 63-bit machine integers *)
+          L [A 3; of_bool (Z.ltb z 0); of_N (N.div (Z.abs_N z) 4294967296); of_N (N.modulo (Z.abs_N z) 4294967296)]
       | VVar 4 [VF b] => L [A 4; of_N (N.div b 4294967296); of_N (N.modulo b 4294967296)]
       | VVar 5 [VSeq l] => L (A 5 :: map (value_sx_fuel fuel') l)
       | VVar 6 [VS s] => L [A 6; of_Ns s]
